@@ -84,7 +84,11 @@ _hval_clean = st.one_of(
 _hval_wild = st.lists(st.one_of(_word, st.sampled_from(_nasty + _ctl)), min_size=0, max_size=4).map("".join)
 
 _body_piece = st.one_of(_word, st.sampled_from(_nasty + _ctl + ["{\"a\": \"b\\n\"}", "a=b&c=d", "100%", "\\u00e9", "\n\n", "@x"]))
-_text_body = st.lists(_body_piece, min_size=1, max_size=6).map("".join)
+_text_body = st.one_of(st.lists(_body_piece, min_size=1, max_size=6).map("".join),
+                       st.lists(_body_piece, min_size=1, max_size=6).map("".join),
+                       st.lists(_body_piece, min_size=1, max_size=6).map("".join),
+                       st.lists(_body_piece, min_size=0, max_size=3).map(lambda l: "@" + "".join(l)),
+                       st.lists(_body_piece, min_size=1, max_size=4).map(lambda l: "".join(l) + "\n"))
 _bin_body = st.one_of(st.binary(min_size=1, max_size=24).filter(lambda b: b"\x00" not in b),
                       st.sampled_from([b"\xff\xfe", b"caf\xe9", b"\x80abc", bytes(range(1, 256))]))
 
@@ -418,7 +422,11 @@ def _shell_ok(tool, rc, err, calls, left, ctx, desc):
     if progs != [want]:
         ctx.fail("%s-shell:stub-invocations" % tool, desc + " invoked %r" % (progs,))
         ok = False
-    if rc == 0 and err and all(b": printf: " in l for l in err.splitlines() if l):
+    if rc == 0 and err and b"printf: -" in err and b"invalid option" in err:
+        # body text starting with '-' is taken as a printf option
+        ctx.fail("%s:printf-leading-dash-taken-as-option" % ("curl-body" if tool == "curl" else "httpie-stdin"),
+                 desc + " stderr=%r" % (err[:200],))
+    elif rc == 0 and err and all(b": printf: " in l for l in err.splitlines() if l):
         # bash complains about the body text used as printf format: same root cause as the body mismatch, argv still usable
         ctx.fail("%s:printf-interprets-percent-or-backslash" % ("curl-body" if tool == "curl" else "httpie-stdin"),
                  desc + " stderr=%r" % (err[:200],))
@@ -513,6 +521,8 @@ def check_case(case, ctx):
                             sub = "non-ascii-text-reencoded"  # decoded with the inferred charset, written as UTF-8
                         elif body.endswith(b"\n") and d in (body.rstrip(b"\n"), relatin.rstrip(b"\n")):
                             sub = "trailing-newline-stripped"  # "$(...)" strips trailing newlines
+                        elif ctrl and body.startswith(b"-") and d == b"":
+                            sub = "printf-leading-dash-taken-as-option"
                         elif ctrl and (b"%" in body or b"\\" in body):
                             sub = "printf-interprets-percent-or-backslash"
                         else:
